@@ -37,7 +37,7 @@ def run(res, tier):
         n, bad, st = validate_traces(tmp, tr, "throttle_traces.ndjson", "L4ThrottleTrace.tla", "L4ThrottleTrace.cfg")
         cov.update(traces_validated_against_impl=n, runs=dict(scenarios=s["runs"], pull_events=s["pull_events"],
                    udp_runs=s.get("udp_runs", 0),
-                   grid="per-connection rate x burst, total limit none | equal | total only | none at all (latency only), latency 0 | 120 ms, reader buffer 1..65536, 1-4 concurrent connections of one handler; enumerated by TLC from L4ThrottleGrid; plus the throttle over UDP virtual connections (three datagrams of 1x, 2x, 2.5x and 3x the burst through the real servePacket loop, judged by G4)"),
+                   grid="per-connection rate x burst, total limit none | equal | total only | none at all (latency only), latency 0 | 120 ms, reader buffer 1..65536, 1-4 concurrent connections of one handler; enumerated by TLC from L4ThrottleGrid; plus the throttle over UDP virtual connections (three datagrams of 1x, 2x, 2.5x and 3x the burst through the real servePacket loop, judged by G4; one more run with a slow throttle behind a 150 ms matching timeout: the association is read long after the matching deadline has passed)"),
                    samples=s["samples"][:2] or [dict(note="no short sample")])
         traces = {}
         for line in open(tr):
@@ -47,6 +47,10 @@ def run(res, tier):
             t = traces[b["id"]]
             t = dict(t, ev=t["ev"][:200])
             res.violation("throttle:" + "+".join(sorted(c.split()[0] for c in b["clauses"])), "; ".join(b["clauses"]) + f" (trace {b['id']}, scenario {t['scen']})", t)
+    # the throttle in a non-terminal route of a listener wrapper: the wrapped listener's consumer reads the stream through the
+    # throttled connection after layer4 has let go of it ("thrfall" mixes of the C13 grid, clause L3 = G4 for that reader)
+    import check_c13
+    check_c13.add_to(res, tier, ("L3",), "C17", only_mix="thrfall")
     res.assumptions += ["the underlying connection always has data and stamps each read when it serves it; 'the first read' is the instant the reader issued its first read; ms resolution with 1 ms rounding slack",
                         "real time: the limiter is golang.org/x/time/rate (trusted)"]
 
